@@ -11,6 +11,11 @@ void rfbRedrawAfterHideCursor(rfbClientPtr cl,sraRegionPtr updateRegion);
 
 rfbClientPtr rfbClientIteratorHead(rfbClientIteratorPtr i);
 
+/* from rfbserver.c */
+
+/* the handshake moves a client to its next state - unless rfbCloseClient() has closed it meanwhile */
+void rfbSetClientHandshakeState(rfbClientPtr cl, int state);
+
 /* from tight.c */
 
 #ifdef LIBVNCSERVER_HAVE_LIBZ
